@@ -70,13 +70,20 @@ KP == IF Tier = 1 THEN {VInt(1), VDec(1, 1), VStr(<<97>>), VBool(1), VBool(0)}
       ELSE {VInt(1), VDec(1, 1), VStr(<<97>>), VStr(<<97, 33>>), VBool(1), VBool(0)}
 VP == <<VInt(1), VStr(<<97>>), VDec(1, 1)>>
 LL1 == 2
-SL1 == IF Tier = 1 THEN 2 ELSE 4
-ML1 == IF Tier = 1 THEN 2 ELSE 3
+SL1 == IF Tier = 1 THEN 2 ELSE 3
+ML1 == 2
+\* thorough: all insertion orders of four elements / three keys
+PS4 == {VInt(1), VInt(2), VStr(<<97>>), VBool(1)}
+PM3 == {VInt(1), VStr(<<97>>), VBool(1)}
 
 Lists1 == {VList(q) : q \in SeqsUpTo(P1, LL1)}
 Sets1  == {VSet(q) : q \in NDSeqs(PS, SL1)}
+          \cup (IF Tier = 1 THEN {} ELSE {VSet(q) : q \in {r \in Seqs4(PS4) : NoDup(r)}})
 Maps1  == {VMap(q, [i \in 1..Len(q) |-> VP[((i + sh) % 3) + 1]]) :
              q \in NDSeqs(KP, ML1), sh \in (IF Tier = 1 THEN {0} ELSE {0, 1})}
+          \cup (IF Tier = 1 THEN {}
+                ELSE {VMap(q, [i \in 1..3 |-> IF q[i] = VInt(1) THEN VStr(<<97>>) ELSE VInt(1)]) :
+                        q \in {r \in Seqs3(PM3) : NoDup(r)}})
 
 \* element pool of the depth-2 containers
 P2 == IF Tier = 1
@@ -117,15 +124,19 @@ OAlpha == IF Tier = 3 THEN {32, 39, 40, 97, 233} ELSE {32, 33, 35, 39, 40, 65, 9
 OStrs  == {VStr(q) : q \in SeqsUpTo(OAlpha, 2)}
 OElem  == {VInt(1), VDec(1, 1), VInt(2), VDec(1, 2), VStr(<<97>>), VStr(<<97, 32>>), VBool(0), VBool(1)}
          \cup (IF Tier = 3 THEN {} ELSE {VDate(D1), VDate(D3), VInt(-1), VStr(<<97, 39>>)})
-OLists == {VList(q) : q \in SeqsUpTo(OElem, IF Tier = 3 THEN 2 ELSE 3)}
+OLists == {VList(q) : q \in SeqsUpTo(OElem, 2)}
+          \cup (IF Tier = 3 THEN {}
+                ELSE {VList(q) : q \in Seqs3({VInt(1), VDec(1, 1), VDec(1, 2), VStr(<<97>>)})})
 OInner == {VList(<< >>), VList(<<VInt(1)>>), VList(<<VDec(1, 1)>>), VList(<<VInt(2)>>),
            VList(<<VInt(1), VInt(2)>>), VList(<<VStr(<<97>>)>>)}
-ONest  == {VList(q) : q \in SeqsUpTo(OInner, 2)}
+ONest  == {VList(q) : q \in SeqsUpTo(IF Tier = 3 THEN OInner \ {VList(<<VInt(2)>>), VList(<<VStr(<<97>>)>>)}
+                                       ELSE OInner, 2)}
 OSetS  == {VStr(<<97>>), VStr(<<97, 32>>), VStr(<<97, 39>>), VStr(<<65>>)}
 OSetN  == {VInt(1), VDec(1, 2), VInt(2), VDec(-1, 1)} \cup (IF Tier = 3 THEN {} ELSE {VDec(1, 1)})
 OSetB  == {VBool(0), VBool(1)}
 OSetL  == {VList(<<VInt(1)>>), VList(<<VInt(1), VInt(0)>>), VList(<< >>)}
-OSets  == {VSet(q) : q \in NDSeqs(OSetS, 3) \cup NDSeqs(OSetN, 3) \cup NDSeqs(OSetB, 2) \cup NDSeqs(OSetL, 3)}
+OSets  == {VSet(q) : q \in NDSeqs(OSetS, 3) \cup NDSeqs(OSetN, IF Tier = 3 THEN 2 ELSE 3)
+                          \cup NDSeqs(OSetB, 2) \cup NDSeqs(OSetL, IF Tier = 3 THEN 2 ELSE 3)}
 OMaps  == {VMap(q, [i \in 1..Len(q) |-> VInt(i)]) :
              q \in NDSeqs(OSetS, IF Tier = 3 THEN 2 ELSE 3) \cup NDSeqs(OSetB, 2) \cup NDSeqs(OSetN, 2)}
 UOrd == Scalars \cup OStrs \cup OLists \cup ONest \cup OSets \cup OMaps
@@ -175,7 +186,6 @@ Spec == Init /\ [][Next]_vars
 TypeOK == /\ mode \in {"pair", "str"} /\ ia \in 1..N /\ ib \in 1..N
           /\ WF(a) /\ WF(b)
 
-Triv == N > 0
 EqReflexive  == EqT[ia][ia]
 EqSymmetric  == EqT[ia][ib] = EqT[ib][ia]
 EqTransitive == \A c \in 1..N : EqT[ia][ib] /\ EqT[ib][c] => EqT[ia][c]
@@ -191,13 +201,13 @@ IntDecNumeric ==
        IF IsBig(a) \/ IsBig(b) THEN IsBig(a) /\ IsBig(b) /\ a.n = b.n /\ a.s = b.s
        ELSE a.n[1] * Abs(b.n[2]) = b.n[1] * Abs(a.n[2]))
 
-Perms(n) == {p \in [1..n -> 1..n] : \A i \in 1..n, j \in 1..n : i # j => p[i] # p[j]}
-\* b holds the entries of a in another insertion order
+\* y holds the entries of x in another insertion order (entries of one
+\* container are pairwise different, so matching them one by one is a bijection)
 IsReorderOf(x, y) ==
   /\ x.k = y.k /\ x.k \in {"set", "map"} /\ Len(x.items) = Len(y.items)
-  /\ \E p \in Perms(Len(x.items)) :
-        /\ \A i \in DOMAIN x.items : y.items[i] = x.items[p[i]]
-        /\ x.k = "map" => \A i \in DOMAIN x.items : y.vals[i] = x.vals[p[i]]
+  /\ \A i \in DOMAIN y.items : \E j \in DOMAIN x.items :
+        /\ y.items[i] = x.items[j]
+        /\ x.k = "map" => y.vals[i] = x.vals[j]
 
 \* sets and maps are equal regardless of insertion order (C06), and render
 \* the same (C08)
